@@ -449,7 +449,7 @@ func (t *TableDesc) CoqStored(row []driver.Value) string {
 
 // DriverOf is the harness's own notion of the column value a Go value denotes (independent of
 // sqlgen and of the Coq model): nil and nil pointers are NULL, pointers are dereferenced, integers become
-// int64, named strings string, the zero value of an implicitnull column is NULL.
+// int64, named strings string, the zero value of an implicitnull column (also behind a pointer) is NULL.
 func DriverOf(c *ColDesc, v interface{}) interface{} {
 	if v == nil {
 		return nil
@@ -464,8 +464,14 @@ func DriverOf(c *ColDesc, v interface{}) interface{} {
 		if rv.IsNil() {
 			return nil
 		}
-		rv = rv.Elem()
-	} else if c != nil && c.ImplicitNull && rv.IsZero() {
+		rv = rv.Elem() // a pointer stands for the value it points to
+		if dv, ok := rv.Interface().(driver.Valuer); ok {
+			if out, err := dv.Value(); err == nil {
+				return out
+			}
+		}
+	}
+	if c != nil && c.ImplicitNull && rv.IsZero() {
 		return nil
 	}
 	switch rv.Kind() {
